@@ -782,6 +782,7 @@ def run_shard(ctx):
                                   "c12s%d" % ctx.shard)
     space.split_every = 5
     space.odd_every = 4
+    space.lead_every = 3
     hook = Hook(ctx.res)
     hook.install()
     try:
